@@ -716,25 +716,66 @@ func (x *Exec) typeAssert(st *State, fr *Frame, i *ssa.TypeAssert, set func(Valu
 // --------------------------------------------------------------------------
 // channels (sequential ghost model: non-blocking sends only)
 
+// A blocking send completes when the buffer has room (or, for an unbuffered channel, when a receiver is
+// there: unknown, so it may complete); otherwise the goroutine blocks and does nothing further -- under
+// partial correctness that path simply ends.
 func (x *Exec) sendInstr(st *State, fr *Frame, in *ssa.Send) {
-	x.unsupported(st, "blocking channel send")
+	cv, ok := x.force(st, x.eval(st, fr, in.Chan)).(VChan)
+	if !ok {
+		x.unsupported(st, "send on a non channel value")
+		return
+	}
+	x.oblige(st, "chan", "send on nil channel blocks forever", Not(cv.Nil), in.Pos(), nil)
+	if cv.Obj >= 0 {
+		if co, ok := st.heap[cv.Obj].(*ChanObj); ok && co.Cap.S != "" {
+			room := Or(Eq(co.Cap, IntLit(0)), Lt(x.chanLen(st, cv), co.Cap))
+			ts, _ := x.fork(st, room, "channel send does not block")
+			if ts == nil {
+				st.dead = true // blocks forever
+				return
+			}
+			// the other state (buffer full) blocks: it is dropped
+		}
+	}
+	x.chanSend(st, cv, x.eval(st, fr, in.X), in.Pos())
+	fr.ip++
 }
 
+// A blocking receive yields a value when one is buffered or the channel is closed (zero value); what it
+// yields is not tracked (an arbitrary value of the element type).
 func (x *Exec) recvInstr(st *State, fr *Frame, i *ssa.UnOp, v Value, set func(Value)) {
-	x.unsupported(st, "blocking channel receive")
+	cv, ok := v.(VChan)
+	if !ok {
+		x.unsupported(st, "receive from a non channel value")
+		return
+	}
+	elem := cv.Typ.Underlying().(*types.Chan).Elem()
+	x.callCounter++
+	val := x.symbolic(st, elem, fmt.Sprintf("recv!%d", x.callCounter))
+	if i.CommaOk {
+		set(VTuple{[]Value{val, VScalar{x.sym.Fresh("recv.ok", SBool)}}})
+		return
+	}
+	set(val)
 }
 
 func (x *Exec) selectInstr(st *State, fr *Frame, i *ssa.Select, set func(Value)) {
-	if i.Blocking {
-		x.unsupported(st, "blocking select")
-		return
-	}
+	// a blocking select takes one of its ready cases (which one is not determined); if none can be ready
+	// the goroutine blocks and the path ends
 	// select with default: each ready case or the default may be taken. A send on a buffered channel is
 	// ready iff the buffer has room (cap == 0: ready iff a receiver waits, unknown here); the default is
 	// taken only if no case is ready.
 	n := len(i.States)
 	choice := x.sym.Fresh("select.choice", SInt)
-	st.assume(And(Le(IntLit(-1), choice), Lt(choice, IntLit(int64(n)))))
+	lowest := int64(-1)
+	if i.Blocking {
+		lowest = 0 // no default case
+	}
+	st.assume(And(Le(IntLit(lowest), choice), Lt(choice, IntLit(int64(n)))))
+	if !x.feasible(st, TTrue) {
+		st.dead = true
+		return
+	}
 	for j, s := range i.States {
 		if s.Dir != types.SendOnly {
 			continue
@@ -751,15 +792,23 @@ func (x *Exec) selectInstr(st *State, fr *Frame, i *ssa.Select, set func(Value))
 		st.assume(Implies(Eq(choice, IntLit(int64(j))), Or(Eq(co.Cap, IntLit(0)), room)))
 		st.assume(Implies(Eq(choice, IntLit(-1)), Not(And(Gt(co.Cap, IntLit(0)), room))))
 	}
-	for k := n - 1; k >= -1; k-- {
+	last := -1
+	if i.Blocking {
+		last = 0
+	}
+	for k := n - 1; k >= last; k-- {
 		target := st
-		if k > -1 {
+		if k > last {
 			target = st.clone()
 		}
 		eq := Eq(choice, IntLit(int64(k)))
 		target.assume(eq)
 		tf := target.top()
-		vals := []Value{VScalar{IntLit(int64(k))}, VScalar{TTrue}}
+		// recvOk: false when the chosen receive found the channel closed
+		vals := []Value{VScalar{IntLit(int64(k))}, VScalar{x.sym.Fresh("select.recvok", SBool)}}
+		if !x.feasible(target, TTrue) {
+			continue // this case cannot be ready
+		}
 		dead := false
 		for j, s := range i.States {
 			if s.Dir == types.RecvOnly {
